@@ -123,10 +123,12 @@ fn loc_tracking_and_rule_sets() {
         lets: vec![],
         sets: vec![
             RuleSet {
+                pre_lets: vec![],
                 name: "Init".into(),
                 entries: vec![Entry::Rule(rule(Re::Any, None, sw))],
             },
             RuleSet {
+                pre_lets: vec![],
                 name: "Rule1".into(),
                 entries: vec![
                     Entry::Rule(rule(Re::Chr('\n'), None, ret(1))),
@@ -175,10 +177,12 @@ fn failure_resets_rule_set_issue_48_shape() {
         lets: vec![],
         sets: vec![
             RuleSet {
+                pre_lets: vec![],
                 name: "Init".into(),
                 entries: vec![Entry::Rule(rule(Re::Chr('['), None, sw)), Entry::Rule(rule(Re::Chr('a'), None, Action::Simple(1)))],
             },
             RuleSet {
+                pre_lets: vec![],
                 name: "A".into(),
                 entries: vec![Entry::Rule(rule(Re::Chr('b'), None, Action::Simple(2)))],
             },
